@@ -136,6 +136,7 @@ func runC13Stress(c *Ctx) {
 		ocspDur = 5 * time.Second
 	}
 	results = append(results, c13OCSPScenario(c, ocspDur, 64))
+	results = append(results, c13FirstUseStorm(c))
 	// the state "last refresh failed signature verification" and the handshake that repairs it
 	for _, storage := range []string{"memory", "disk"} {
 		r := rolloverScenario(c, storage)
@@ -371,5 +372,59 @@ func c13OCSPScenario(c *Ctx, dur time.Duration, workers int) c13Result {
 	wg.Wait()
 	v1.Close()
 	v2.Close()
+	return res
+}
+
+// c13FirstUseStorm: many goroutines present, at the same instant, certificates that name the same distribution point
+// nobody has used yet — round after round with a new distribution point (entry creation, storing the locations and the
+// first load race with each other).
+func c13FirstUseStorm(c *Ctx) c13Result {
+	res := c13Result{Scenario: "first-use-storm/memory/fetch_actively"}
+	w := NewWorld(c, "c13_storm")
+	defer w.Close()
+	w.AddList("A", ListSpec{Serials: []int64{103}, Number: 1})
+	w.Cfg = VCfg{Mode: "crl_only", Storage: "memory", SigMode: "verify", FetchMode: "fetch_actively", Interval: "1h"}
+	if err := w.Provision(); err != nil {
+		res.Panics, res.FirstBad = 1, "provision: "+err.Error()
+		return res
+	}
+	rounds := 40
+	if c.Thorough() {
+		rounds = 300
+	}
+	for r := 0; r < rounds; r++ {
+		loc := fmt.Sprintf("/storm%d", r)
+		w.Do(sv(loc, "A"))
+		name := fmt.Sprintf("storm%d", r)
+		w.AddCert(name, CertSpec{Serial: 103, CDP: []string{loc}})
+		var wg sync.WaitGroup
+		start := make(chan struct{})
+		for g := 0; g < 8; g++ {
+			wg.Add(1)
+			go func() {
+				defer wg.Done()
+				<-start
+				var v string
+				ok, p := watchdog(func() { v = classify(w.V.Verify(w.chainFor(name)...)) })
+				atomic.AddInt64(&res.Calls, 1)
+				switch {
+				case !ok:
+					if atomic.AddInt64(&res.Hangs, 1) == 1 {
+						res.FirstBad = "handshake " + name
+					}
+				case p != "" || v == "panic":
+					if atomic.AddInt64(&res.Panics, 1) == 1 {
+						res.FirstBad = "handshake " + name + ": " + p
+					}
+				case v != "revoked":
+					if atomic.AddInt64(&res.Wrong, 1) == 1 {
+						res.FirstBad = name + " " + v
+					}
+				}
+			}()
+		}
+		close(start)
+		wg.Wait()
+	}
 	return res
 }
